@@ -837,6 +837,11 @@ def _vinfo(r):
     return (py_nat(r['type']), binf(b[0], '-1.79769e+308'), binf(b[1], '1.79769e+308'))
 
 
+def _oinfo(r):
+    csv = lambda l: ','.join(str(py_nat(x)) for x in l) if l else '-'
+    return '%d %s %s %s' % (py_nat(r['sense']), csv(r['lin_terms']['vars']), csv(r['qp_terms']['vars1']), csv(r['qp_terms']['vars2']))
+
+
 def exporter_ops(c, recs):
     """reconstruct the event sequence of the Lean exporter model (ModelExporter.lean) from the real export (event order =
     file order; which constraints were reformulated / unused and the final variable data are read from the final records)
@@ -860,6 +865,7 @@ def exporter_ops(c, recs):
     if upd is None:
         return None
     cur, exp, late_links, nlinks = {}, [], [], 0
+    curobj = {}
     nl_vars_added = False
     for r in recs[:upd]:
         if not nl_vars_added and 'VAR_index' not in r and 'COMMENT' not in r:
@@ -869,10 +875,23 @@ def exporter_ops(c, recs):
                 ops.append('EX a %s %d' % (hx('src_vars()'), n_nl))
             nl_vars_added = True
         if 'NL_CON_TYPE' in r:
+            lg = 1 if r['NL_CON_TYPE'] == 'logical' else 0
+            ops.append('EX nc %d' % lg)                          # ExportAlgCon / ExportLogCon
+            exp.append('NC %d %d' % (py_nat(r['index']), lg))
             ops.append('EX a %s 1' % hx('src_cons()'))          # ConvertAlgCon / ConvertLogicalCon: src_cons().Add()
         elif 'NL_OBJECTIVE_index' in r:
+            ops.append('EX no')                                  # ExportObj
+            exp.append('NO %d' % py_nat(r['NL_OBJECTIVE_index']))
             ops.append('EX a %s 1' % hx('src_objs()'))          # Convert(objective): src_objs().Add(), dest_objs().Add()
             ops.append('EX a %s 1' % hx('dest_objs()'))
+        elif 'NL_COMMON_EXPR_index' in r:
+            ops.append('EX nd')                                  # ExportCommonExpr
+            exp.append('ND %d' % py_nat(r['NL_COMMON_EXPR_index']))
+        elif 'OBJECTIVE_index' in r:
+            oi = _oinfo(r)
+            curobj[py_nat(r['OBJECTIVE_index'])] = oi
+            ops.append('EX ao ' + oi)                            # AddObjective -> ExportObjective
+            exp.append('O %d %s' % (py_nat(r['OBJECTIVE_index']), oi))
         if 'VAR_index' in r:
             i, b, inf = py_nat(r['VAR_index']), py_nat(r['is_from_nl']), _vinfo(r)
             cur[i] = inf
@@ -895,6 +914,11 @@ def exporter_ops(c, recs):
             if cur.get(i) != inf:
                 ops.append('EX sv %d %d %d %d' % ((i,) + inf))
             exp.append('V %d %d %d %d %d' % ((i, b) + inf))
+        elif 'OBJECTIVE_index' in r:
+            i, oi = py_nat(r['OBJECTIVE_index']), _oinfo(r)
+            if curobj.get(i) != oi:
+                ops.append('EX so %d %s' % (i, oi))              # rewritten in place after its creation (conic reformulation)
+            exp.append('O %d %s' % (i, oi))
         elif 'CON_TYPE' in r and 'final' in r:
             ty, i = r['CON_TYPE'], py_nat(r['index'])
             u, b, f = py_nat(r['unused']), py_nat(r['bridged']), py_nat(r['final'])
@@ -1057,7 +1081,7 @@ def stage_config(ck, exe, tab, hist):
 
 
 # ------------------------------------------------------------------ entry
-N_THEOREMS = 40
+N_THEOREMS = 43
 
 
 def run(ck):
